@@ -16,7 +16,8 @@ inputs (vlib.ref / vlib.models) at the fit's current parameter values:
   unbinned                 rug segments at the data values, density line == reference density
   ratio / residual / pull  == data/model, data - model, (data - model)/uncertainty, with the corresponding bars and bands
   legend                   parameter values, uncertainties (symmetric / asymmetric), gof / ndf, probability, cost parsed back
-                           and compared with the fit's results within half a unit of the last displayed digit
+                           and compared with the fit's results within half a unit of the last displayed digit; also for
+                           several fits that were constructed with one and the same model function object
 """
 import re
 
@@ -38,7 +39,11 @@ RULE = (
     "one case = 1-3 fitted problems drawn by one Plot.plot() call: fit type {xy, indexed, hist, unbinned} x uncertainty configuration "
     "{none, y, x and y, correlated (coefficient / matrix), relative to data, model-referenced} x cost {chi2, chi2 pointwise, Gaussian nll/nllr, "
     "Poisson nll/nllr, Gauss approximation; unbinned nll} x option {plain, ratio, residual, pull, asymmetric errors, separate figures, several "
-    "fits, log x, log y} (+ fixed parameter, negated linear model so that model values are negative). The first cases of a run enumerate "
+    "fits, log x, log y, several fits built on ONE model function object (one figure / separate figures)} (+ fixed parameter, negated linear "
+    "model so that model values are negative). Fits on one model function object: same fit type, model family and cost, own data and own "
+    "uncertainty sources, constructed with the same ModelFunctionBase / HistModelFunction / IndexedModelFunction instance (kafe2 stores it "
+    "without copying, the fits share their parameter formatters); every legend block must show ITS fit's numbers (observable "
+    "legend.shared-model-function.value, stratum legends-distinguishable = the blocks of one plot differ). The first cases of a run enumerate "
     "every (fit type, option) and every (fit type, uncertainty configuration, cost) stratum, later ones sample. A case is non-trivial when the plot "
     "was produced and data artists, model artists and the legend of every fit were all compared; distinct by hash of the case."
 )
@@ -61,6 +66,8 @@ ASSUMPTIONS = [
     "ratio panels are only requested when no reference model value at the data points vanishes; asymmetric uncertainties are compared by magnitude (the form ^{+U}_{-D} "
     "cannot display a sign); fits whose free parameters do not all have a finite positive uncertainty are discarded",
     "after the fit (and MINOS) the results are read until two consecutive snapshots agree; the plot is compared with that state and discarded if the state differs after plotting",
+    "a legend line of the form '(fixed)' for a parameter that is free in its fit but fixed in another fit built on the same model function object is classified "
+    "C18/fixed-marker-of-shared-model-function-object-shown-for-every-fit (predicate over the witness: line form, declared fixed parameters of the members, shared flag of the case)",
 ]
 ANCHORS = [
     ("kafe2.fit._base.plot", "Plot.plot"),
